@@ -63,7 +63,7 @@ class C09(Check):
         self.rec.unwrap_all()
 
     def budget(self, tier):
-        k = 1 if tier == 'quick' else 25
+        k = 1 if tier == 'quick' else 120
         return {'wellposed': 500 * k, 'cholesky_spd': 400 * k, 'cholesky_bad': 400 * k, 'illposed': 600 * k}
 
     # ------------------------------------------------------------------ gen
@@ -199,7 +199,13 @@ class C09(Check):
         ys = max(float(np.abs(y).max()), 1e-300)
         fit_ref = A @ c
         dev = float(np.abs(yfit - fit_ref).max())
-        out.expect(dev <= 1e-7 * ys, 'optimum', 'fitted values differ from the dense weighted LS solution by %.3g (limit %.3g)' % (dev, 1e-7 * ys),
+        # the code solves the normal equations: error ~ cond(A sqrt(W))^2 * eps, the reference (lstsq) ~ cond * eps
+        cond = float(sv[0] / sv[-1]) if sv[-1] > 0 else np.inf
+        ftol = max(1e-7, 100 * 1.1e-16 * cond ** 2)
+        if ftol > 1e-4:
+            out.undecide()
+            return
+        out.expect(dev <= ftol * ys, 'optimum', 'fitted values differ from the dense weighted LS solution by %.3g (limit %.3g)' % (dev, ftol * ys),
                    condition=float(sv[0] / sv[-1]) if sv[-1] > 0 else None)
         # chi-square not worse than the independent optimum (first-order optimality)
         chi = float(np.sum(w * (y - yfit) ** 2))
@@ -207,7 +213,7 @@ class C09(Check):
         out.expect(chi <= chi_ref * (1 + 1e-9) + 1e-12 * ys * ys, 'optimum', 'chi-square %.9g exceeds the independent optimum %.9g' % (chi, chi_ref))
         cdev = float(np.abs(s.coeff - c).max())
         cs = max(float(np.abs(c).max()), 1e-300)
-        out.expect(cdev <= 1e-5 * cs, 'optimum', 'coefficients differ from dense LS by %.3g (scale %.3g)' % (cdev, cs))
+        out.expect(cdev <= max(1e-5, 1e4 * 1.1e-16 * cond ** 2) * cs, 'optimum', 'coefficients differ from dense LS by %.3g (scale %.3g)' % (cdev, cs))
         out.expect(bool(np.all(s.mask)), 'status', 'status 0 but a breakpoint was masked')
         g = np.random.default_rng(case['seed'])
         # polynomial of degree < order is reproduced
@@ -216,7 +222,7 @@ class C09(Check):
         s2 = B.bspline(x, nord=k, bkpt=np.array(case['bkpt']))
         st2, pf = s2.fit(x, p, w)
         ps = max(float(np.abs(p).max()), 1e-300)
-        out.expect(st2 == 0 and float(np.abs(pf - p).max()) <= 1e-8 * ps, 'polynomial',
+        out.expect(st2 == 0 and float(np.abs(pf - p).max()) <= max(1e-8, ftol / 10) * ps, 'polynomial',
                    'polynomial of degree %d not reproduced: dev %.3g' % (k - 1, float(np.abs(pf - p).max()) / ps))
         # zero-weight points do not influence the coefficients (bit-identical)
         if np.any(w == 0):
@@ -233,7 +239,7 @@ class C09(Check):
         st4, f4 = s4.fit(x, al * y + be * p, w)
         lin = al * s.coeff + be * s2.coeff
         ls = max(float(np.abs(lin).max()), abs(al) * cs, 1e-300)
-        out.expect(st4 == 0 and float(np.abs(s4.coeff - lin).max()) <= 1e-9 * max(ls, abs(al) * cs + abs(be) * float(np.abs(s2.coeff).max())) * 10,
+        out.expect(st4 == 0 and float(np.abs(s4.coeff - lin).max()) <= max(1e-8, 1e3 * 1.1e-16 * cond ** 2) * max(ls, abs(al) * cs + abs(be) * float(np.abs(s2.coeff).max())),
                    'linear', 'fit(a*y1+b*y2) != a*fit(y1)+b*fit(y2): dev %.3g scale %.3g' % (float(np.abs(s4.coeff - lin).max()), ls))
         out.nontrivial = (len(case['bkpt']) - 1) >= 4
         out.info.update(order=k, intervals=len(case['bkpt']) - 1, npts=x.size, cond=float(sv[0] / sv[-1]))
